@@ -72,17 +72,17 @@ type CatEntry struct {
 }
 
 type Mismatch struct {
-	Enc      []int  `json:"enc"`
-	Fam      string `json:"fam"`
-	Tab      string `json:"tab"`
-	Loc      string `json:"loc"`
-	A        int    `json:"a"`
-	X        int    `json:"x"`
-	F        int    `json:"f"`
-	Want     string `json:"want"`
-	Got      string `json:"got"`
-	Pre      [27]int `json:"pre"`
-	Cells    [][2]int `json:"cells"`
+	Enc   []int    `json:"enc"`
+	Fam   string   `json:"fam"`
+	Tab   string   `json:"tab"`
+	Loc   string   `json:"loc"`
+	A     int      `json:"a"`
+	X     int      `json:"x"`
+	F     int      `json:"f"`
+	Want  string   `json:"want"`
+	Got   string   `json:"got"`
+	Pre   [27]int  `json:"pre"`
+	Cells [][2]int `json:"cells"`
 }
 
 const swPC = 0x0100
@@ -184,7 +184,6 @@ func (ss *sweepStats) add(m Mismatch) {
 	}
 	ss.mu.Unlock()
 }
-
 
 // sweep8 runs the complete cube of one catalogue entry.
 // fstep / astep subsample F and A in the quick tier (1 = complete).
